@@ -566,7 +566,7 @@ Section BundleRun.
       destruct (negb a && hc) eqn:Hst; try discriminate.
       inversion H; subst o. clear H.
       apply negb_false_iff in Hcov. apply andb_true_iff in Hcov. destruct Hcov as [Hci Hid].
-      destruct (parse_roundtrip_full vr ev w pattern_ok selectors_ok Hpad ids Hclosed Hreg pids Hsub Hpc f a i d ci inner dfl hc
+      destruct (parse_roundtrip_full vr ev w pattern_ok selectors_ok Hpad ids (closed_ok_weaken vr w ids Hclosed) Hreg pids Hsub Hpc f a i d ci inner dfl hc
                   Hp Hci (idcond_prop d Hid) Erp) as [R1 [Hpl [Hres [[t [Et Et']] [Hidp Hkeys]]]]].
       set (o := PObject ci inner dfl hc) in *.
       split; [unfold o, omem; rewrite !encode_obj; reflexivity |]. split; [exact Hres |]. split; [| exact Hpl].
